@@ -31,7 +31,13 @@ Record call := { k_l : Z; k_p : prop; k_v : value; k_same : bool }.
 
 Definition triple := (value * value * value)%type.
 Definition snapshot := list (Z * triple).       (* every transform: position, rotation, scale as read *)
-Record obs := { o_calls : list call; o_snap : snapshot }.
+(* o_id: what the harness saw of object identity.
+   after ONew: every vector-valued property of the new transform is a NEW object - not the
+   argument object it was built from, not an object that another (or the same) transform holds
+   (the constructor builds Vec2 / Vec3 instances from its arguments; defaults are not shared);
+   after OSet of a vector: a read returns the very object that was assigned;
+   otherwise true. *)
+Record obs := { o_calls : list call; o_snap : snapshot; o_id : bool }.
 
 Record c20_case := {
   c_masks : list (Z * (bool * bool * bool));   (* which events the class of listener l handles *)
@@ -121,7 +127,7 @@ Definition arg (three_d : bool) (p : prop) (o : option value) : value :=
 
 Definition no_calls (l : list call) : bool := match l with [] => true | _ => false end.
 
-Definition step (ms : list (Z * (bool * bool * bool))) (s : state) (o : op) (ob : obs) : option state :=
+Definition step0 (ms : list (Z * (bool * bool * bool))) (s : state) (o : op) (ob : obs) : option state :=
   match o with
   | ONew t d pos rot sc =>
       (* __init__: Vec(position...), rotation % 360. (2D) / Vec3(rotation...), Vec(scale...); no event *)
@@ -151,6 +157,11 @@ Definition step (ms : list (Z * (bool * bool * bool))) (s : state) (o : op) (ob 
       end
   end.
 
+(* identities: __init__ stores Vec(position...) etc., i.e. new objects; the setters store the
+   assigned object itself *)
+Definition step (ms : list (Z * (bool * bool * bool))) (s : state) (o : op) (ob : obs) : option state :=
+  if o_id ob then step0 ms s o ob else None.
+
 Fixpoint run (ms : list (Z * (bool * bool * bool))) (s : state) (tr : list (op * obs)) : option state :=
   match tr with
   | [] => Some s
@@ -168,7 +179,7 @@ Record sstate := {
   sp_prev : snapshot;
 }.
 
-Definition spec_step (ms : list (Z * (bool * bool * bool))) (s : sstate) (o : op) (ob : obs) : option sstate :=
+Definition spec_step0 (ms : list (Z * (bool * bool * bool))) (s : sstate) (o : op) (ob : obs) : option sstate :=
   match o with
   | ONew t d pos rot sc =>
       (* reads return the arguments (2D rotation reduced), defaults otherwise;
@@ -205,6 +216,11 @@ Definition spec_step (ms : list (Z * (bool * bool * bool))) (s : sstate) (o : op
       | _, _, _ => None
       end
   end.
+
+(* ... and construction shares no object with the arguments or with another transform,
+   while an assigned vector is stored as the object it is *)
+Definition spec_step (ms : list (Z * (bool * bool * bool))) (s : sstate) (o : op) (ob : obs) : option sstate :=
+  if o_id ob then spec_step0 ms s o ob else None.
 
 Fixpoint spec_run (ms : list (Z * (bool * bool * bool))) (s : sstate) (tr : list (op * obs)) : option sstate :=
   match tr with
